@@ -399,15 +399,19 @@ Definition list_set_struct (fuel : nat) (w : world) (p : Ptr) (i : Z) (l : loc) 
   if p_bit p then Err
   else do e <- list_struct true p i; copy_struct fuel true w e l src.
 
-(* Message.SetRoot(p) *)
-Definition set_root (fuel : nat) (w : world) (l : loc) (src : Ptr) : res world :=
+(* Message.SetRoot(p).  [fix_root]: the repaired code reports an error when the first segment
+   cannot hold the root pointer (as found: PointerList{}.Set(0, p) panics "list element out of
+   bounds"; only reachable with a hand-made Message, NewMessage always allocates the root word) *)
+Definition set_root_gen (fix_root : bool) (fuel : nat) (w : world) (l : loc) (src : Ptr) : res world :=
   let m := w_dst w in
   match bm_segs m with
   | [] => Err
   | s0 :: _ =>
-    if negb (regionInBounds (bs_data s0) 0 8) then Panic
+    if negb (regionInBounds (bs_data s0) 0 8) then (if fix_root then Err else Panic)
     else write_ptr fuel true w 0 0 l src false
   end.
+Definition set_root := set_root_gen true.
+Definition set_root_asfound := set_root_gen false.
 
 (* a Message value over a pre-sized arena, without NewMessage (no root word allocated):
    &capnp.Message{Arena: MultiSegment(bufs)} with empty buffers of the given capacities *)
